@@ -612,6 +612,23 @@ Example C06_cfg_rules_example :
   (exists es, compare_to path_eq_real (rules_cfg R') L R' = Ok es /\ shows_difference es = true).
 Proof. exact rules_example. Qed.
 
+(* a rule naming a list nested directly inside a positionally compared list
+   ([rules] /a[0] = value on a: [[..], [..]]) is honoured (repaired: the
+   element's parentref used to be its index + 1 and the rule was never found):
+   a[0] reordered shows no difference, a[1] reordered does *)
+Example C06_cfg_nested_rule_example :
+  let L := nest_doc 0 [1; 2; 3]%Z [4; 5; 6]%Z in
+  let R := nest_doc 100 [3; 1; 2]%Z [4; 5; 6]%Z in
+  let R' := nest_doc 100 [1; 2; 3]%Z [6; 4; 5]%Z in
+  (wf_doc L = true /\ wf_doc R = true /\ wf_doc R' = true) /\
+  c_rules (nest_cfg R) <> [] /\
+  kguard_c (nest_cfg R) L R None PNone = true /\
+  equiv_c (nest_cfg R) L R None PNone = true /\ data_eq L R = false /\
+  (exists es, compare_to path_eq_real (nest_cfg R) L R = Ok es /\ shows_difference es = false) /\
+  equiv_c (nest_cfg R') L R' None PNone = false /\
+  (exists es, compare_to path_eq_real (nest_cfg R') L R' = Ok es /\ shows_difference es = true).
+Proof. exact nested_rule_example. Qed.
+
 (* non-vacuity: --aoh key with [keys] /r = name on records whose first key's
    values coincide: the guard holds for the configured key, not for `id` *)
 Example C06_cfg_keys_example :
